@@ -2,9 +2,13 @@
 package c04
 
 import (
+	"encoding/json"
 	"fmt"
 	"testing"
 
+	"github.com/NethermindEth/juno/core"
+	"github.com/NethermindEth/juno/core/felt"
+	"github.com/NethermindEth/juno/db/memory"
 	"pgregory.net/rapid"
 
 	"verif/harness/internal/gen"
@@ -22,8 +26,100 @@ func observe(n *node.Node, ids *node.Ids) node.Obs {
 	return o
 }
 
-func freshWith(newState bool, u *gen.Universe, blocks []*gen.Block) (*node.Node, error) {
-	n := node.New(newState, nil, u.Net)
+// histSample is the part of the historical state a base-chain case looks at: on the in-memory database every
+// historical read costs time proportional to the whole database (8186+ blocks), so the per-block/per-hash state sweep
+// of the short-chain cases is replaced by the complete head state plus one drawn (block, address, key) probe.
+type histSample struct {
+	num  uint64
+	hash felt.Felt
+	addr felt.Felt
+	key  felt.Felt
+}
+
+// observeLong is observe for the cases on a long base chain: the whole Reader API over all ids except the historical
+// state sweep, all event queries of observe, the complete head state, and (when hs is given) the historical probe.
+func observeLong(n *node.Node, ids *node.Ids, hs *histSample) node.Obs {
+	light := *ids
+	light.NoState = true
+	o := n.Observe(&light)
+	n.ObserveEvents(o, ids)
+	sr, closer, err := n.BC.HeadState()
+	if err != nil {
+		o["headstate"] = "!err:" + err.Error()
+	} else {
+		readState(o, "headstate", sr, ids.Addrs, ids.Keys, ids.Classes)
+		_ = closer()
+	}
+	if hs != nil {
+		sr, closer, err := n.BC.StateAtBlockNumber(hs.num)
+		if err != nil {
+			o["probe/number"] = "!err:" + err.Error()
+		} else {
+			readState(o, "probe/number", sr, []felt.Felt{hs.addr}, []felt.Felt{hs.key}, nil)
+			_ = closer()
+		}
+		sr, closer, err = n.BC.StateAtBlockHash(&hs.hash)
+		if err != nil {
+			o["probe/hash"] = "!err:" + err.Error()
+		} else {
+			readState(o, "probe/hash", sr, []felt.Felt{hs.addr}, []felt.Felt{hs.key}, nil)
+			_ = closer()
+		}
+	}
+	return o
+}
+
+func rs(v string, err error) string {
+	if err != nil {
+		return "!err:" + err.Error()
+	}
+	return v
+}
+
+// readState renders class hash, nonce, storage and class lookups of a state reader (same reads as node.Observe).
+func readState(o node.Obs, tag string, r core.StateReader, addrs, keys, classes []felt.Felt) {
+	for _, a := range addrs {
+		a := a
+		ch, err := r.ContractClassHash(&a)
+		o[tag+"/classhash/"+a.String()] = rs(ch.String(), err)
+		nn, err := r.ContractNonce(&a)
+		o[tag+"/nonce/"+a.String()] = rs(nn.String(), err)
+		for _, k := range keys {
+			k := k
+			v, err := r.ContractStorage(&a, &k)
+			o[tag+"/storage/"+a.String()+"/"+k.String()] = rs(v.String(), err)
+		}
+	}
+	for _, cl := range classes {
+		cl := cl
+		d, err := r.Class(&cl)
+		if err != nil {
+			o[tag+"/class/"+cl.String()] = "!err:" + err.Error()
+		} else {
+			b, jerr := json.Marshal(map[string]any{"at": d.At, "def": d.Class})
+			o[tag+"/class/"+cl.String()] = rs(string(b), jerr)
+		}
+		sh := felt.SierraClassHash(cl)
+		h1, err := r.CompiledClassHash(&sh)
+		o[tag+"/casm/"+cl.String()] = rs((*felt.Felt)(&h1).String(), err)
+		h2, err := r.CompiledClassHashV2(&sh)
+		o[tag+"/casm2/"+cl.String()] = rs((*felt.Felt)(&h2).String(), err)
+	}
+}
+
+// windowSize is core.NumBlocksPerFilter: the number of blocks one aggregated event-bloom window covers.
+const windowSize = 8192
+
+// freshWith builds a node that never saw anything but blocks: the per-process base image of baseN empty blocks
+// (baseN = 0: an empty database) plus the given generated blocks, stored one after the other.
+func freshWith(newState bool, u *gen.Universe, baseN int, blocks []*gen.Block) (*node.Node, error) {
+	var n *node.Node
+	if baseN > 0 {
+		_, d := node.GetBase(baseN, newState, u.Net)
+		n = node.New(newState, d, u.Net)
+	} else {
+		n = node.New(newState, nil, u.Net)
+	}
 	for _, b := range blocks {
 		if err := n.Store(b); err != nil {
 			return nil, fmt.Errorf("fresh node could not store block %d: %w", b.Num(), err)
@@ -32,9 +128,10 @@ func freshWith(newState bool, u *gen.Universe, blocks []*gen.Block) (*node.Node,
 	return n, nil
 }
 
+const rule = "common prefix + fork F1 + fork F2 of generated blocks, fork point anywhere incl. genesis, both state backends, on (a) an empty database: prefix 0-4, forks 1-4 blocks, or (b, a sixth of the cases) a per-process base image of 8186 real empty blocks cloned per case (thorough also 16378): prefix 0-9, forks 1-5 blocks, so that the common head lies in 8185..8194 and forks, reverts and the fork point fall on both sides of / exactly on the 8192-block event-index window boundary (window persisted, un-persisted by the revert, persisted again by the other fork; running filter emptied and reloaded; window cache warm or cold). Node A (one long-lived Blockchain object, optionally restarted ungracefully or gracefully = with a running-filter snapshot) stores prefix+F1, reverts F1 block by block (each revert must succeed), stores F2 and must equal node B that stored prefix+F2 directly: whole Reader API over all ids incl. reverted hashes, state at every block/hash, per-address event queries. After every revert A is compared in the same way with a fresh node holding the remaining blocks (always on (a); on (b) drawn: full comparison / drawn event queries only / nothing, so that cache contents survive several reverts). Drawn event queries (address set, per-position key alternatives, range incl. from>to and beyond the head, page size, scan limit, continuation tokens) are issued on A before the reverts, between individual reverts, between the stores of F2 and after convergence, each compared with a naive scan of the model chain's receipts and, where one exists, with the fresh node / node B. non-trivial = F1 contains declare+deploy+touch, a zero write, a system-contract write, a CASM migration, an L1 handler or a replaced class, or the reverts take back the last block of a completed window"
+
 func TestPropRevertAndForkConvergence(t *testing.T) {
-	stats.Check(t, stats.Budget{Quick: 300, Thorough: 2500},
-		"common prefix (0-4 blocks) + fork F1 (1-4 blocks) + fork F2 (1-4 blocks), fork point anywhere incl. genesis, both state backends; node A stores prefix+F1, reverts F1 block by block (each revert must succeed and leave A observationally equal to a fresh node holding the remaining blocks: whole Reader API over all ids incl. reverted hashes, state at every block/hash, per-address event queries), then stores F2 and must equal node B that stored prefix+F2 directly; non-trivial = F1 contains declare+deploy+touch, a zero write, a system-contract write, a CASM migration, an L1 handler or a replaced class",
+	stats.Check(t, stats.Budget{Quick: 300, Thorough: 2500}, rule,
 		func(rt *rapid.T, c *stats.Case) {
 			u := gen.NewUniverse(rt)
 			newState := rapid.Bool().Draw(rt, "newState")
@@ -42,24 +139,71 @@ func TestPropRevertAndForkConvergence(t *testing.T) {
 			if !newState && stats.Known(kfLegacyZero) {
 				opts.NoZeroToAbsent = true
 			}
-			base := gen.NewChain(u, opts)
-			np := rapid.IntRange(0, 4).Draw(rt, "prefix")
+			// ---- height: empty database, or a base image ending just below an event-index window boundary
+			baseN := 0
+			if gen.Uniform(rt, 6, "onBaseChain") == 0 {
+				baseN = 8186
+				if stats.Thorough() && rapid.IntRange(0, 3).Draw(rt, "secondWindow") == 0 {
+					baseN = 16378
+				}
+			}
+			var base *gen.Chain
+			var adb *memory.Database
+			maxPrefix, maxFork := 4, 4
+			if baseN > 0 {
+				bch, d := node.GetBase(baseN, newState, u.Net)
+				adb = d
+				base = bch.Fork(bch.Height())
+				base.U = u
+				base.Opt = gen.NewChain(u, opts).Opt
+				maxPrefix, maxFork = 9, 5
+				c.Labelf("base-%d", baseN)
+				c.Label("base-chain")
+			} else {
+				base = gen.NewChain(u, opts)
+				adb = memory.New()
+			}
+			var np int
+			if baseN > 0 {
+				// common head in baseN-1 .. baseN+8 (8185..8194), weighted towards fork points just below the boundary
+				np = []int{0, 1, 2, 3, 3, 4, 4, 5, 5, 5, 6, 6, 7, 8, 9}[gen.Uniform(rt, 15, "prefixLong")]
+			} else {
+				np = rapid.IntRange(0, maxPrefix).Draw(rt, "prefix")
+			}
 			for i := 0; i < np; i++ {
 				base.Next(rt)
 			}
-			f1 := base.Fork(np)
-			n1 := rapid.IntRange(1, 4).Draw(rt, "f1")
+			fh := baseN + np // fork height = number of blocks both forks share
+			f1 := base.Fork(fh)
+			forkLen := func(label string) int {
+				if baseN > 0 {
+					return 1 + gen.Uniform(rt, maxFork, label+"Long")
+				}
+				return rapid.IntRange(1, maxFork).Draw(rt, label)
+			}
+			n1 := forkLen("f1")
+			if baseN > 0 && gen.Uniform(rt, 5, "f1EndsWindow") == 0 {
+				// bias: the head before the reverts is exactly the last block of a window (window just persisted,
+				// running filter empty), whenever the drawn fork point allows it
+				if k := (baseN/windowSize+1)*windowSize - fh; k >= 1 && k <= maxFork {
+					n1 = k
+				}
+			}
 			for i := 0; i < n1; i++ {
 				f1.Next(rt)
 			}
-			f2 := base.Fork(np)
-			n2 := rapid.IntRange(1, 4).Draw(rt, "f2")
+			f2 := base.Fork(fh)
+			n2 := forkLen("f2")
 			for i := 0; i < n2; i++ {
 				f2.Next(rt)
 			}
-			c.Fp("ns%v p%d f1:%d f2:%d", newState, np, n1, n2)
+			lo := uint64(baseN)
+			c.Fp("ns%v base%d p%d f1:%d f2:%d", newState, baseN, np, n1, n2)
 			c.Labelf("backend-%v", map[bool]string{true: "trie2", false: "legacy"}[newState])
 			ids := &node.Ids{Addrs: u.AllAddrs(), Keys: u.Keys}
+			if baseN > 2 {
+				ids.MinNumber = uint64(baseN - 2)
+			}
 			for _, s := range u.Sierra {
 				ids.Classes = append(ids.Classes, s.Hash)
 			}
@@ -67,15 +211,15 @@ func TestPropRevertAndForkConvergence(t *testing.T) {
 				ids.Classes = append(ids.Classes, s.Hash)
 			}
 			interesting := false
-			for _, b := range f1.Blocks {
+			for _, b := range f1.Blocks[baseN:] {
 				ids.AddBlock(b)
 				c.Fp("f1 %s", b.B.Hash.String())
 			}
-			for _, b := range f2.Blocks[np:] {
+			for _, b := range f2.Blocks[fh:] {
 				ids.AddBlock(b)
 				c.Fp("f2 %s", b.B.Hash.String())
 			}
-			for _, b := range f1.Blocks[np:] {
+			for _, b := range f1.Blocks[fh:] {
 				for tag := range b.Tags {
 					c.Label("f1:" + tag)
 					switch tag {
@@ -93,49 +237,171 @@ func TestPropRevertAndForkConvergence(t *testing.T) {
 			if n1 >= 2 {
 				c.Label("fork-depth>=2")
 			}
-			if np == 0 {
+			if fh == 0 {
 				c.Label("fork-at-genesis")
 			}
+			// geometry relative to the window boundary: `last` is the last block number of the window the base ends in
+			tip1, tip2 := uint64(fh+n1-1), uint64(fh+n2-1)
+			var last uint64
+			crossDown, crossUp := false, false
+			if baseN > 0 {
+				last = (uint64(baseN)/windowSize+1)*windowSize - 1
+				crossDown = uint64(fh) <= last && tip1 >= last // block `last` is reverted: its window becomes the running one again
+				crossUp = uint64(fh) <= last && tip2 >= last   // F2 completes (persists) that window (again)
+				switch {
+				case crossDown && tip1 == last:
+					c.Label("revert-crosses-boundary:head-is-last-block-of-window")
+				case crossDown:
+					c.Label("revert-crosses-boundary:from-above")
+				case tip1 >= last:
+					c.Label("reverts-stay-above-boundary")
+				default:
+					c.Label("reverts-stay-below-boundary")
+				}
+				if crossDown {
+					c.Label("revert-crosses-boundary")
+					c.NonTrivial("revert-takes-back-last-block-of-completed-window")
+				}
+				if crossUp {
+					c.Label("f2-completes-window")
+				}
+				if crossDown && crossUp {
+					c.Label("window-unpersisted-and-persisted-again")
+				}
+				if !crossDown && crossUp {
+					c.Label("only-f2-crosses-boundary")
+				}
+				if uint64(fh) == last+1 {
+					c.Label("fork-point-is-first-block-of-window")
+				}
+			}
 
-			a := node.New(newState, nil, u.Net)
-			for _, b := range f1.Blocks {
+			// observation: everything on the short chains; on the long ones the historical state sweep is replaced by probes
+			obs := func(n *node.Node, hs *histSample) node.Obs {
+				if baseN > 0 {
+					return observeLong(n, ids, hs)
+				}
+				return observe(n, ids)
+			}
+			probe := func(ch *gen.Chain, label string) *histSample {
+				if baseN == 0 || gen.Uniform(rt, 3, label) != 0 {
+					return nil
+				}
+				c.Label("historical-state-probe-on-long-chain")
+				num := baseN - 1 + rapid.IntRange(0, len(ch.Blocks)-baseN).Draw(rt, label+"-num")
+				return &histSample{num: uint64(num), hash: *ch.Blocks[num].B.Hash,
+					addr: rapid.SampledFrom(ids.Addrs).Draw(rt, label+"-addr"), key: rapid.SampledFrom(ids.Keys).Draw(rt, label+"-key")}
+			}
+
+			a := node.New(newState, adb, u.Net)
+			for _, b := range f1.Blocks[baseN:] {
 				if err := a.Store(b); err != nil {
 					c.Violation("valid-block-rejected", "node A (%s) rejected valid block %d: %v", a.Backend(), b.Num(), err)
 				}
 			}
-			if rapid.Bool().Draw(rt, "warmQueries") {
-				_ = observe(a, ids) // warms caches / bloom filter cache before the reorg
-				c.Label("warm-before-revert")
-			}
-			// revert F1 block by block
-			for h := len(f1.Blocks); h > np; h-- {
-				if rapid.IntRange(0, 4).Draw(rt, "restartBeforeRevert") == 0 {
+			restart := func(when string) {
+				switch gen.Uniform(rt, 12, "restart-"+when) {
+				case 0, 1:
 					a.Reopen()
-					c.Label("restart-before-revert")
+					c.Label("restart-" + when)
+				case 2:
+					if err := a.BC.WriteRunningEventFilter(); err != nil {
+						c.Violation("snapshot-write", "WriteRunningEventFilter: %v", err)
+					}
+					a.Reopen()
+					c.Label("restart-" + when)
+					c.Label("graceful-restart-" + when)
 				}
+			}
+			// ---- queries BEFORE the reverts (warm whatever caches the node keeps)
+			warmed := false
+			if rapid.Bool().Draw(rt, "warmQueries") {
+				_ = obs(a, nil) // warms caches / bloom filter cache before the reorg
+				c.Label("warm-before-revert")
+				warmed = true
+			}
+			if k := rapid.IntRange(0, 3).Draw(rt, "queriesBefore"); k > 0 {
+				eventQueries(rt, c, u, k, "before the reverts", a, f1.Blocks[baseN:], lo, "", nil)
+				c.Label("drawn-queries-before-revert")
+				warmed = true
+			}
+			if warmed && crossDown {
+				c.Label("revert-crosses-boundary+queries-before")
+			}
+			// ---- revert F1 block by block
+			queriedBetween, queriedAtLast := false, false
+			for h := len(f1.Blocks); h > fh; h-- {
+				restart("before-revert")
 				if err := a.BC.RevertHead(); err != nil {
 					c.Violation("revert-failed", "RevertHead of block %d (%s backend) failed: %v; block tags %v", h-1, a.Backend(), err, f1.Blocks[h-1].Tags)
 				}
-				want, err := freshWith(newState, u, f1.Blocks[:h-1])
-				if err != nil {
-					stats.HarnessError("%v", err)
+				remaining := f1.Blocks[baseN : h-1]
+				// what is asked between this revert and the next: on an empty database always the full comparison; on a
+				// base chain drawn, so that cache contents can also survive a revert unobserved
+				mid := 0
+				if baseN > 0 {
+					mid = rapid.SampledFrom([]int{0, 0, 0, 0, 0, 0, 1, 1, 2, 2}).Draw(rt, "between")
 				}
-				if d := node.Diff(observe(a, ids), observe(want, ids), 6); len(d) > 0 {
-					hist := ""
-					for _, b := range f1.Blocks {
-						hist += fmt.Sprintf("    #%d v%s %s\n", b.Num(), b.B.ProtocolVersion, gen.DiffString(b.SU.StateDiff))
+				var want *node.Node
+				if mid == 0 {
+					var err error
+					want, err = freshWith(newState, u, baseN, remaining)
+					if err != nil {
+						stats.HarnessError("%v", err)
 					}
-					c.Violation("revert-not-exact", "after reverting block %d (%s backend, tags %v) node differs from a node that never stored it:\n%s  chain diffs:\n%s", h-1, a.Backend(), f1.Blocks[h-1].Tags, joinLines(d), hist)
+					var hs *histSample
+					if h-1 == fh { // F1 is completely reverted
+						hs = probe(f1, "probeAfterReverts")
+					}
+					if d := node.Diff(obs(a, hs), obs(want, hs), 6); len(d) > 0 {
+						hist := ""
+						for _, b := range f1.Blocks[baseN:] {
+							hist += fmt.Sprintf("    #%d v%s %s\n", b.Num(), b.B.ProtocolVersion, gen.DiffString(b.SU.StateDiff))
+						}
+						c.Violation("revert-not-exact", "after reverting block %d (%s backend, tags %v) node differs from a node that never stored it:\n%s  chain diffs:\n%s", h-1, a.Backend(), f1.Blocks[h-1].Tags, joinLines(d), hist)
+					}
 				}
+				nq := 0
+				switch mid {
+				case 0:
+					nq = rapid.IntRange(0, 2).Draw(rt, "queriesBetween")
+				case 1:
+					nq = rapid.IntRange(1, 3).Draw(rt, "queriesBetween")
+				}
+				if nq > 0 && h-1 > 0 {
+					eventQueries(rt, c, u, nq, fmt.Sprintf("after reverting block %d", h-1), a, remaining, lo, "fresh node", want)
+					c.Label("drawn-queries-between-reverts")
+				}
+				if h-1 > fh && (mid == 0 || nq > 0) { // another revert follows
+					queriedBetween = true
+					if baseN > 0 && uint64(h-2) == last {
+						queriedAtLast = true
+					}
+				}
+				if baseN > 0 {
+					c.Labelf("between-reverts:%s", []string{"full-comparison", "drawn-queries-only", "nothing"}[mid])
+				}
+			}
+			if queriedBetween {
+				c.Label("queries-between-individual-reverts")
+			}
+			if crossDown && queriedBetween {
+				c.Label("revert-crosses-boundary+queries-between-reverts")
+			}
+			if queriedAtLast {
+				c.Label("revert-crosses-boundary+query-while-head-is-last-block-of-window")
 			}
 			// partial re-apply of the same blocks, then revert again (re-apply interleaving)
 			if rapid.Bool().Draw(rt, "reapply") {
 				k := rapid.IntRange(1, n1).Draw(rt, "reapplyN")
 				c.Labelf("reapply")
-				for _, b := range f1.Blocks[np : np+k] {
+				for _, b := range f1.Blocks[fh : fh+k] {
 					if err := a.Store(b); err != nil {
 						c.Violation("reapply-rejected", "re-storing reverted block %d failed: %v", b.Num(), err)
 					}
+				}
+				if rapid.IntRange(0, 2).Draw(rt, "queryReapplied") == 0 {
+					eventQueries(rt, c, u, 1, "after re-applying reverted blocks", a, f1.Blocks[baseN:fh+k], lo, "", nil)
 				}
 				for i := 0; i < k; i++ {
 					if err := a.BC.RevertHead(); err != nil {
@@ -143,25 +409,43 @@ func TestPropRevertAndForkConvergence(t *testing.T) {
 					}
 				}
 			}
-			// follow the other fork
-			for _, b := range f2.Blocks[np:] {
+			restart("before-second-fork")
+			// ---- follow the other fork
+			for i, b := range f2.Blocks[fh:] {
 				if err := a.Store(b); err != nil {
 					c.Violation("fork-block-rejected", "node A (%s) rejected block %d of the second fork after reverting the first: %v", a.Backend(), b.Num(), err)
 				}
+				if i < n2-1 && rapid.IntRange(0, 3).Draw(rt, "queryWhileFollowing") == 0 {
+					eventQueries(rt, c, u, 1, fmt.Sprintf("after storing block %d of the second fork", b.Num()), a, f2.Blocks[baseN:fh+i+1], lo, "", nil)
+					c.Label("drawn-queries-while-following-second-fork")
+				}
 			}
-			bnode, err := freshWith(newState, u, f2.Blocks)
+			bnode, err := freshWith(newState, u, baseN, f2.Blocks[baseN:])
 			if err != nil {
 				stats.HarnessError("%v", err)
 			}
-			if d := node.Diff(observe(a, ids), observe(bnode, ids), 6); len(d) > 0 {
+			// ---- AFTER the convergence: drawn queries first on some cases (the full observation asks per-address queries itself)
+			nAfter := rapid.IntRange(1, 4).Draw(rt, "queriesAfter")
+			first := rapid.Bool().Draw(rt, "drawnQueriesFirst")
+			if first {
+				eventQueries(rt, c, u, nAfter, "after following the second fork", a, f2.Blocks[baseN:], lo, "node B", bnode)
+			}
+			hs := probe(f2, "probeAfterConvergence")
+			if d := node.Diff(obs(a, hs), obs(bnode, hs), 6); len(d) > 0 {
 				c.Violation("forks-do-not-converge", "node that followed F1, reverted and followed F2 differs from node that followed F2 directly (%s backend):\n%s", a.Backend(), joinLines(d))
 			}
-			// information only: raw database images
-			if da, db := node.Dump(a.DB), node.Dump(bnode.DB); len(da) != len(db) {
-				c.Info("raw-dump-size-differs")
+			if !first {
+				eventQueries(rt, c, u, nAfter, "after following the second fork", a, f2.Blocks[baseN:], lo, "node B", bnode)
+			}
+			// information only: raw database images (skipped on the long base chains)
+			if baseN == 0 {
+				if da, db := node.Dump(a.DB), node.Dump(bnode.DB); len(da) != len(db) {
+					c.Info("raw-dump-size-differs")
+				}
 			}
 			c.Sample(func() any {
-				return map[string]any{"backend": a.Backend(), "prefix": np, "f1": tagsOf(f1.Blocks[np:]), "f2": tagsOf(f2.Blocks[np:])}
+				return map[string]any{"backend": a.Backend(), "base_blocks": baseN, "prefix": np, "f1": tagsOf(f1.Blocks[fh:]), "f2": tagsOf(f2.Blocks[fh:]),
+					"revert_crosses_window_boundary": crossDown, "f2_completes_window": crossUp}
 			})
 		})
 }
